@@ -109,13 +109,16 @@ class MatrixGenerator:
     def inv(self):
         """Inverse of this matrix. Throws error if matrix is not invertible."""
         # TODO: implement modular inverse, if needed.
-        matrix_inv = np.array(np.rint(np.linalg.inv(self.matrix)), dtype=np.int64)
-        if not np.array_equal(self.apply(matrix_inv), np.eye(self.n)):
+        try:
+            matrix_inv = np.array(np.rint(np.linalg.inv(self.matrix)), dtype=np.int64)
+        except np.linalg.LinAlgError:
+            matrix_inv = None  # Numerically singular for LAPACK; the matrix may still have an exact integer inverse.
+        if matrix_inv is None or not np.array_equal(self.apply(matrix_inv), np.eye(self.n)):
             # The floating-point inverse of an ill-conditioned matrix can be off by more than 1/2: invert exactly.
             exact_inv = _integer_inverse(self.matrix)
             if exact_inv is not None:
                 matrix_inv = exact_inv
-        assert np.array_equal(self.apply(matrix_inv), np.eye(self.n)), "Matrix is not invertible."
+        assert matrix_inv is not None and np.array_equal(self.apply(matrix_inv), np.eye(self.n)), "Matrix is not invertible."
         inverse = MatrixGenerator.create(matrix_inv, self.modulo)
         # The inverse of the inverse is this matrix (a reduced modular inverse need not have an integer inverse of its own).
         inverse.__dict__["inv"] = self
